@@ -19,7 +19,8 @@ EXTENDS Verifier
 BadConstruct(in) == in.construct \in {"both-badBlob", "both-badOCI"}
 HasDoc(in) == IF BadConstruct(in) THEN FALSE ELSE IF in.entry \in {"vVerify", "nVerify"} THEN in.construct \in {"oci", "both"} ELSE in.construct \in {"blob", "both"}
 
-EnvOf(sig) == [parse |-> sig \in {"valid", "invalid"}, sigValid |-> sig = "valid", ptype |-> "notary", pjson |-> TRUE]
+(* "validTS": a valid signature carrying a time-stamp countersignature, under a statement that lists a tsa store *)
+EnvOf(sig) == [parse |-> sig \in {"valid", "validTS", "invalid"}, sigValid |-> sig \in {"valid", "validTS"}, ptype |-> "notary", pjson |-> TRUE]
 VIn(in) ==
   [api |-> IF in.entry \in {"vVerify", "nVerify"} THEN "Verify" ELSE "VerifyBlob",
    sel |-> IF HasDoc(in) THEN "ok" ELSE "nildoc", skip |-> in.level = "skip", env |-> EnvOf(in.sig),
